@@ -2,11 +2,13 @@ module verif
 
 go 1.25.0
 
-require codeberg.org/TauCeti/mangle-go v0.0.0
+require (
+	codeberg.org/TauCeti/mangle-go v0.0.0
+	github.com/klauspost/compress v1.18.6
+)
 
 require (
 	github.com/antlr4-go/antlr/v4 v4.13.1 // indirect
-	github.com/klauspost/compress v1.18.6 // indirect
 	golang.org/x/exp v0.0.0-20260611194520-c48552f49976 // indirect
 )
 
